@@ -524,6 +524,20 @@ def dispatch(ctx):
     ctx.anchor(len(adapt) == 1, 'smoothing() adapts lr_dir via '
                '_current_lr_dir')
     cname = ast.unparse(adapt[0].targets[0])
+    # the code that selects the kernels is the ADAPTED one on every path: its
+    # only definition is the unguarded adaptation call (a raw `lr_dir` taken
+    # on some shapes runs line relaxation along a two-cell direction)
+    cdefs = [n for n in ast.walk(sf) if isinstance(n, (ast.Assign,
+                                                       ast.AugAssign))
+             and any(ast.unparse(t) == cname for t in (
+                 n.targets if isinstance(n, ast.Assign) else [n.target]))]
+    ctx.check('C03.S6.dispatch', 'smoothing: dispatch code always adapted',
+              len(cdefs) == 1 and cdefs[0] is adapt[0] and
+              not au.guards_of(adapt[0], sf),
+              f'`{cname}` has {len(cdefs)} definitions / a guarded '
+              'adaptation: on some grids the requested line-relaxation code '
+              'is used without removing two-cell directions',
+              ctx.where(sm, cdefs[-1] if cdefs else sf))
     for c in kcalls:
         ctx.check('C03.S6.dispatch', f'smoothing: {ast.unparse(c.func)} after '
                   'adaptation', c.lineno > adapt[0].lineno,
